@@ -7,7 +7,7 @@ correspondence implementation vs Model and implementation vs Spec through the Le
 (search) -> evidence.   Exit 0: property held on everything explored; 1: VIOLATION line printed; 2: the
 machinery itself failed (timeout, broken audit, crashed driver) -- never reported as a violation.
 """
-import os, sys, json, time, importlib, argparse, traceback, warnings
+import os, sys, json, time, importlib, argparse, traceback, warnings, io, contextlib
 
 sys.path.insert(0, os.path.dirname(os.path.abspath(__file__)))
 import vlib
@@ -24,7 +24,8 @@ def evaluate(ctx, P, cases, which='model'):
     lines = []
     for c in cases:
         try:
-            out = P.impl(ctx, c)
+            with contextlib.redirect_stdout(io.StringIO()), contextlib.redirect_stderr(io.StringIO()):
+                out = P.impl(ctx, c)        # the library prints diagnostics; keep them off the check's own output
         except Exception as e:                      # the harness itself failing is not an implementation outcome
             out = {'harness_exception': repr(e), 'trace': traceback.format_exc()[-800:]}
         recs.append({'case': c, 'impl': out})
@@ -168,7 +169,10 @@ def run(ctx, pid, args):
         r = harness_err[0]
         print(f'CHECK-ERROR property={pid}: harness/driver error on a case: {json.dumps(r, default=str)[:1500]}')
         return 2
-    extra = P.extra_checks(ctx) if hasattr(P, 'extra_checks') else []   # list of dicts {ok, name, kind?, case, detail}
+    extra = []
+    if hasattr(P, 'extra_checks'):      # list of dicts {ok, name, kind?, case, detail}
+        with contextlib.redirect_stdout(io.StringIO()), contextlib.redirect_stderr(io.StringIO()):
+            extra = P.extra_checks(ctx)
     extra_vio = [e for e in extra if not e['ok']]
 
     # ---- decide ---------------------------------------------------------------------------------------
@@ -218,7 +222,9 @@ def run(ctx, pid, args):
             printed_violation = True
     # known findings that are exercised by dedicated probes on every run
     if hasattr(P, 'known_probes'):
-        for kind, still_fails, what in P.known_probes(ctx):
+        with contextlib.redirect_stdout(io.StringIO()), contextlib.redirect_stderr(io.StringIO()):
+            probes = list(P.known_probes(ctx))
+        for kind, still_fails, what in probes:
             kf = vlib.match_known(pid, kind)
             if kf and still_fails and kf['id'] not in seen_kinds:
                 known_lines.append(f'KNOWN-FINDING: property={pid} {kf["id"]}: {kf["what"]}')
@@ -266,6 +272,8 @@ def run(ctx, pid, args):
         'obligation_list': [{'name': o[0], 'ok': o[1], 'detail': o[2]} for o in obligations],
         'translator': {'refused': tr.get('refused', []), 'changed': tr.get('changed', [])},
         'ties': tie_notes or ['tie #1 (translated Gen) and tie #2 (correspondence) both intact'],
+        'programs': max(1, len(getattr(P, 'GEN_UNITS', [])) + len(getattr(P, 'MODELS', []))),
+        'disagreements_checked': len(recs),
         'evaluations': len(recs), 'distinct_nontrivial': len(keys),
         'rule': getattr(P, 'RULE', ''),
         'traces_validated_against_impl': len(recs) if ok_drv else 0,
